@@ -101,22 +101,20 @@ def _in_body(n, iff):
 
 
 def none_guarded(g, expr_text, node):
-    """is cfg node `node` dominated by a test establishing `expr_text` is not None / truthy ?"""
+    """is cfg node `node` protected by a test establishing `expr_text` is not None / truthy?  A test protects the node when it
+    dominates it and the node cannot be reached from the test's 'may be None' branch without passing the test again (this covers
+    `if x is not None: use(x)`, `if x is None: continue / return / raise` followed by the use, and their negated spellings)."""
     for t in g.nodes:
         if t.kind != "test" or not g.dominates(t, node) or t is node:
             continue
         s = norm(t.ast)
         pos = s in (f"{expr_text} is not None", f"{expr_text} != None", expr_text)
         neg = s in (f"{expr_text} is None", f"{expr_text} == None", f"not {expr_text}")
-        if pos and any(m is node or g.dominates(m, node) for m, l in t.succ if l == "T"):
+        if not (pos or neg):
+            continue
+        bad = [m for m, l in t.succ if l == ("F" if pos else "T")]
+        if bad and all(m is not node and node.id not in g.reachable_from([m], avoid={t.id}) for m in bad):
             return True
-        if neg and any(m is node or g.dominates(m, node) for m, l in t.succ if l == "F"):
-            return True
-        if neg:
-            # early exit form:  if x is None: continue/return/raise   -> everything after is guarded
-            tb = [m for m, l in t.succ if l == "T"]
-            if tb and all(node.id not in g.reachable_from([m], avoid={t.id} | {h.id for h in g.nodes if h.kind == "loop"}) for m in tb):
-                return True
     return False
 
 
@@ -467,6 +465,7 @@ def run(report, p):
 
     # ---- rules shared with other properties (same mechanism, same rule, reported under every property it can break)
     include_rules(report, p, 'c07', ['R7.1', 'R7.2', 'R7.3', 'R7.4'], 'verify -dh recomputes directory hashes with the same context wiring')
+    include_rules(report, p, 'c03', ['R3.9'], 'verify dispatches -dh to its worker on every path')
     include_rules(report, p, 'c01', ['R1.1'], 'file digests feeding the directory hashes must cover the whole file')
     include_rules(report, p, 'c02', ['R2.1'], 'verify -dh walks the tree with the same traversal: the folder paths it yields are join(<start as given>, names), which the root-folder test compares with the start path')
     report.not_decided += ["that every change alters a directory hash (C07, collision resistance)", "verdicts for concrete trees"]
